@@ -782,3 +782,130 @@ func rtPrintSemantics(a *aggregator, v *rtView, budget int) {
 	a.Decide(len(bad) == 0 && n > 100, "R-print-semantics", construct, cfg, pos,
 		fmt.Sprintf("%d derivations over a text with 2-, 3- and 4-byte runes, a quote and a newline: plus chains of depth 12, 70 and 300: the printed tree is the pre-order list of non-empty tokens, one per line, indented by depth, each with its rule's name and the quoted runes [begin,end)", n), strings.Join(bad, "; "))
 }
+
+// routeSemantics evaluates the syntax-tree printers of the token list and of
+// the parser on one derivation and compares what they write with what the
+// node's own Print / PrettyPrint write for the tree AST() returns and the
+// parser's Buffer: every printer must show that tree with that text (the
+// format itself is R-print-semantics' business).
+func routeSemantics(v *rtView) (bad []string, und string, n int) {
+	defer func() {
+		if p := recover(); p != nil {
+			switch x := p.(type) {
+			case undecided:
+				und = x.msg
+			case nilDeref:
+				bad = append(bad, "nil dereference at "+x.pos)
+			case goPanic:
+				bad = append(bad, "panic: "+x.msg+" at "+x.pos)
+			default:
+				panic(p)
+			}
+		}
+	}()
+	it := newInstInterp(v.in)
+	if !it.globalInit(instFiles(v.in), "rul3s") {
+		return nil, "the rule-name table rul3s was not found", 0
+	}
+	tokensT, tokenT := it.namedType("tokens"), it.namedType("token")
+	_, parserT := findInit(it)
+	if tokensT == nil || tokenT == nil || parserT == nil {
+		return nil, "types tokens / token / parser not found", 0
+	}
+	pname := ""
+	if nm, ok := parserT.(*types.Named); ok {
+		pname = nm.Obj().Name()
+	}
+	writer, stdout := &Ext{"model writer"}, &Ext{"os.Stdout"}
+	if it.extVars == nil {
+		it.extVars = map[string]Value{}
+	}
+	it.extVars["os.Stdout"] = stdout
+	var sink *strings.Builder
+	emit := func(w Value, s string) []Value {
+		if w != Value(writer) && w != Value(stdout) {
+			if e, ok := w.(*Ext); !ok || !(strings.Contains(e.desc, "Buffer") || strings.Contains(e.desc, "Builder")) {
+				panic(undecided{"a printer writes to " + describe(w)})
+			}
+		}
+		sink.WriteString(s)
+		return []Value{int64(len(s)), Nil{}}
+	}
+	it.natives["fmt.Fprint"] = func(it *Interp, args []Value) []Value {
+		var gv []any
+		for _, x := range expandVariadic(args[1:]) {
+			gv = append(gv, it.goValue(x))
+		}
+		return emit(args[0], fmt.Sprint(gv...))
+	}
+	it.natives["fmt.Fprintf"] = func(it *Interp, args []Value) []Value { return emit(args[0], it.sprintf(args[1:])) }
+	it.natives["fmt.Fprintln"] = func(it *Interp, args []Value) []Value {
+		var gv []any
+		for _, x := range expandVariadic(args[1:]) {
+			gv = append(gv, it.goValue(x))
+		}
+		return emit(args[0], fmt.Sprintln(gv...))
+	}
+	it.natives["io.WriteString"] = func(it *Interp, args []Value) []Value { return emit(args[0], args[1].(string)) }
+	text := "aé世\"\n𝄞bcd"
+	mk := func() *Obj {
+		ts := it.newObj(tokensT)
+		list := &SliceV{elems: []Value{}}
+		// post-order: [1,3) [3,4) [1,5) [6,8) [0,9)
+		for i, be := range [][2]int64{{1, 3}, {3, 4}, {1, 5}, {6, 8}, {0, 9}} {
+			to := it.newObj(tokenT)
+			to.field("pegRule").v = int64(1 + i%2)
+			to.field("begin").v, to.field("end").v = be[0], be[1]
+			list.elems = append(list.elems, to)
+		}
+		ts.field("tree").v = list
+		return ts
+	}
+	run := func(f func()) string {
+		sink = &strings.Builder{}
+		f()
+		return sink.String()
+	}
+	call := func(name string, recv Value, args ...Value) {
+		fd := it.declOf(name)
+		if fd == nil {
+			panic(undecided{"method " + name + " not found"})
+		}
+		it.callDecl(fd, recv, args...)
+	}
+	astFd := it.declOf("tokens.AST")
+	if astFd == nil {
+		return nil, "tokens.AST not found", 0
+	}
+	plain := run(func() { call("node.Print", it.callDecl(astFd, mk())[0], writer, text) })
+	pretty := run(func() { call("node.PrettyPrint", it.callDecl(astFd, mk())[0], writer, text) })
+	if plain == "" || pretty == "" {
+		return nil, "node.Print / node.PrettyPrint write nothing on the model tree", 0
+	}
+	check := func(what, got, want string) {
+		n++
+		if got != want {
+			bad = append(bad, fmt.Sprintf("%s writes %q; the tree of AST() printed with the same text is %q", what, clip(got, 120), clip(want, 120)))
+		}
+	}
+	check("tokens.WriteSyntaxTree(w, buffer)", run(func() { call("tokens.WriteSyntaxTree", mk(), writer, text) }), plain)
+	check("tokens.PrintSyntaxTree(buffer)", run(func() { call("tokens.PrintSyntaxTree", mk(), text) }), plain)
+	check("tokens.PrettyPrintSyntaxTree(buffer)", run(func() { call("tokens.PrettyPrintSyntaxTree", mk(), text) }), pretty)
+	parser := func(prettyOpt bool) *Obj {
+		p := it.newObj(parserT)
+		p.field("Buffer").v = text
+		if c := p.field("Pretty"); c != nil {
+			c.v = prettyOpt
+		}
+		if c := p.field("tokens"); c != nil {
+			c.v = mk()
+		} else {
+			panic(undecided{"the parser has no tokens field"})
+		}
+		return p
+	}
+	check("parser.WriteSyntaxTree(w)", run(func() { call(pname+".WriteSyntaxTree", parser(false), writer) }), plain)
+	check("parser.PrintSyntaxTree()", run(func() { call(pname+".PrintSyntaxTree", parser(false)) }), plain)
+	check("parser.PrintSyntaxTree() with Pretty", run(func() { call(pname+".PrintSyntaxTree", parser(true)) }), pretty)
+	return bad, "", n
+}
